@@ -641,3 +641,87 @@ func paramOf(v ssa.Value) *ssa.Parameter {
 	}
 	return nil
 }
+
+// postDominators computes, for every block, the set of blocks that
+// post-dominate it (iterative dataflow over the reversed CFG with a virtual
+// exit joining all blocks without successors).
+func postDominators(fn *ssa.Function) map[*ssa.BasicBlock]map[*ssa.BasicBlock]bool {
+	all := map[*ssa.BasicBlock]bool{}
+	for _, b := range fn.Blocks {
+		all[b] = true
+	}
+	pd := map[*ssa.BasicBlock]map[*ssa.BasicBlock]bool{}
+	for _, b := range fn.Blocks {
+		if len(b.Succs) == 0 {
+			pd[b] = map[*ssa.BasicBlock]bool{b: true}
+		} else {
+			m := map[*ssa.BasicBlock]bool{}
+			for x := range all {
+				m[x] = true
+			}
+			pd[b] = m
+		}
+	}
+	for changed := true; changed; {
+		changed = false
+		for i := len(fn.Blocks) - 1; i >= 0; i-- {
+			b := fn.Blocks[i]
+			if len(b.Succs) == 0 {
+				continue
+			}
+			var inter map[*ssa.BasicBlock]bool
+			for _, s := range b.Succs {
+				// a successor that only panics does not constrain what must follow
+				if len(s.Instrs) > 0 && len(s.Succs) == 0 {
+					if _, isPanic := s.Instrs[len(s.Instrs)-1].(*ssa.Panic); isPanic {
+						continue
+					}
+				}
+				if inter == nil {
+					inter = map[*ssa.BasicBlock]bool{}
+					for x := range pd[s] {
+						inter[x] = true
+					}
+				} else {
+					for x := range inter {
+						if !pd[s][x] {
+							delete(inter, x)
+						}
+					}
+				}
+			}
+			if inter == nil {
+				inter = map[*ssa.BasicBlock]bool{}
+			}
+			inter[b] = true
+			if len(inter) != len(pd[b]) {
+				pd[b] = inter
+				changed = true
+			}
+		}
+	}
+	return pd
+}
+
+// controlDeps returns the If-terminated blocks x (with the successor index
+// taken) on which block b is control dependent: b post-dominates x.Succs[i]
+// (or is it) but does not post-dominate x.
+func controlDeps(fn *ssa.Function, pd map[*ssa.BasicBlock]map[*ssa.BasicBlock]bool, b *ssa.BasicBlock) map[*ssa.BasicBlock]int {
+	out := map[*ssa.BasicBlock]int{}
+	for _, x := range fn.Blocks {
+		if len(x.Succs) != 2 || x == b && false {
+			continue
+		}
+		if pd[x][b] && x != b {
+			continue
+		}
+		for i, s := range x.Succs {
+			if s == b || pd[s][b] {
+				if x != b || true {
+					out[x] = i
+				}
+			}
+		}
+	}
+	return out
+}
